@@ -830,7 +830,23 @@ NORM = [
     [0xc3, 0x9f], [0xc4, 0xb0], [0xc7, 0x85], [0xe1, 0xba, 0x9b, 0xcc, 0xa3],         # sharp s, I with dot, Dz digraph: case mappings change the length
     [0xc2, 0xa0], [0xe3, 0x80, 0x80], [0xe2, 0x80, 0x80], [0xe2, 0x80, 0x8b], [0x09], [0x0d],   # spaces str.strip() removes, zero width space, TAB, CR
 ]
-NORM_NFC = [f for f in NORM if unicodedata.normalize("NFC", bytes(f).decode()) != bytes(f).decode()]
+def _unstable(form):
+    return [f for f in NORM if unicodedata.normalize(form, bytes(f).decode()) != bytes(f).decode()]
+
+
+NORM_NFC = _unstable("NFC")
+NORM_NFD = [f for f in _unstable("NFD") if f not in NORM_NFC]
+NORM_NFKC = [f for f in _unstable("NFKC") if f not in NORM_NFC and f not in NORM_NFD]
+NORM_CASE = [f for f in NORM if len({bytes(f).decode(), bytes(f).decode().lower(), bytes(f).decode().upper(), bytes(f).decode().casefold()}) > 1]
+
+
+def norm_name(rng):
+    """one name that changes under each of NFC, NFD, NFKC, the case mappings and (half of the time) strip()"""
+    parts = [rng.choice(NORM_NFC), rng.choice(NORM_NFD), rng.choice(NORM_NFKC), rng.choice(NORM_CASE)]
+    rng.shuffle(parts)
+    return [x for p_ in parts for x in p_] + rng.choice([[], [0x20], [0x09]])
+
+
 # names a path library would rewrite (collapsed '..', '.', '//', trailing '/', home directory, drive / backslash forms)
 PATHY = [list(x.encode()) for x in (
     "..", "../x", "a/..", "/a/../b", "a/../../b", "/..", "a/../", ".", "./a", "a/.", "a/./b", "a//b", "//a", "///a", "a/", "/",
@@ -886,7 +902,8 @@ def valid_units(rng, n=1):
         out.append((2, tlv_bytes(2, rbytes(rng, rng.randrange(0, 12)))))
         out.append((4, tlv_bytes(4, [rng.randrange(256)])))
         # every other unit carries a name that is not stable under normalisation / path clean-up / contains delimiters
-        sp = (lambda: rng.choice(NORM_NFC if k % 4 == 0 else SPECIAL_NAMES)) if k % 2 == 0 else (lambda: rname(rng, rng.randrange(0, 9)))
+        sp = (lambda: rng.choice(NORM_NFC) if k % 4 == 0 else rng.choice([norm_name(rng), rng.choice(SPECIAL_NAMES)])) \
+            if k % 2 == 0 else (lambda: rname(rng, rng.randrange(0, 9)))
         a = rng.choice(ACTIONS)
         out.append((0, tlv_bytes(0, fs_value(a, 0, sp(), rname(rng, rng.randrange(0, 9))))))
         a = rng.choice(ACTIONS)
@@ -894,9 +911,9 @@ def valid_units(rng, n=1):
                                              sp() if a in TWO else rname(rng, rng.randrange(0, 9)), rbytes(rng, rng.randrange(0, 6))))))
         if k % 2 == 0:
             a = rng.choice(TWO)
-            out.append((0, tlv_bytes(0, fs_value(a, 0, rname(rng, rng.randrange(0, 4)), sp()))))
+            out.append((0, tlv_bytes(0, fs_value(a, 0, rname(rng, rng.randrange(0, 4)), norm_name(rng)))))
             a = rng.choice(ACTIONS)
-            out.append((1, tlv_bytes(1, fs_value(a, rstatus(rng, a) & 15, sp(), sp(), rng.choice(MAGIC)))))
+            out.append((1, tlv_bytes(1, fs_value(a, rstatus(rng, a) & 15, norm_name(rng), sp(), rng.choice(MAGIC)))))
             t = rng.choice([2, 5])
             out.append((t, tlv_bytes(t, rng.choice(MAGIC))))
     return out
@@ -1353,6 +1370,11 @@ def streams(tier, rng):
             cases.append((1060, [[10, rng.choice([0, 1])], [a2, 0], nm, other, [], [P_PACK], [P_FIRST] + other, [P_SECOND] + nm, [P_VALUE], [P_PACK]]))
             cases.append((1060, [[11, rng.choice([4, 5])], [], tlv_bytes(1, v1), [], [], [P_PACK], [P_VALUE], [P_PACK]]))
             cases.append((1060, [[0, 3], [], nm, [], [], [P_PACK], [P_PACK]]))
+    for _ in range(60 if big else 15):
+        nm, other = norm_name(rng), norm_name(rng)
+        a = rng.choice(TWO); st = rstatus(rng, a)
+        cases.append((1023, [[a], nm, other])); cases.append((1026, [[a, st], other, nm, []]))
+        cases.append((1024, [tlv_bytes(0, fs_value(a, 0, nm, other))])); cases.append((1027, [tlv_bytes(1, fs_value(a, st & 15, other, nm, [7]))]))
     for m in MAGIC:            # LV / TLV values made of the format's own items
         for v in (m, m * 3, [len(m)] + m, [len(m) + 2] + m):
             cases.append((1000, [v])); cases.append((1001, [lv_bytes(v) + m]))
